@@ -78,8 +78,39 @@ fn is_path(e: &E) -> bool {
     }
 }
 
-fn is_num_key(v: &V) -> bool {
-    matches!(v, V::I(_)) || matches!(v, V::F(b) if !f64::from_bits(*b).is_nan())
+/// the documented total order of keys (independent statement, not the model's keyCmp):
+/// null < bool < number < string < range < tuple; tuples by length, then element-wise
+fn spec_key_cmp(a: &V, b: &V) -> std::cmp::Ordering {
+    use std::cmp::Ordering::*;
+    let rank = |v: &V| match v {
+        V::Null => 0,
+        V::Bool(_) => 1,
+        V::I(_) | V::F(_) => 2,
+        V::S(_) => 3,
+        V::R(..) => 4,
+        V::T(_) => 5,
+        _ => 6,
+    };
+    match (a, b) {
+        (V::Bool(x), V::Bool(y)) => x.cmp(y),
+        (V::I(x), V::I(y)) => x.cmp(y),
+        (V::I(_) | V::F(_), V::I(_) | V::F(_)) => {
+            let (x, y) = (num_of(a).unwrap().1, num_of(b).unwrap().1);
+            x.partial_cmp(&y).unwrap_or_else(|| x.is_nan().cmp(&y.is_nan()))
+        }
+        (V::S(x), V::S(y)) => x.cmp(y),
+        (V::R(a1, a2), V::R(b1, b2)) => (a1, a2).cmp(&(b1, b2)),
+        (V::T(x), V::T(y)) => x.len().cmp(&y.len()).then_with(|| {
+            for (p, q) in x.iter().zip(y.iter()) {
+                let o = spec_key_cmp(p, q);
+                if o != Equal {
+                    return o;
+                }
+            }
+            Equal
+        }),
+        _ => rank(a).cmp(&rank(b)),
+    }
 }
 
 fn spec_key_lt(a: &V, b: &V) -> bool {
@@ -393,37 +424,15 @@ fn map_oracle(
         }
         "clear" => expected.clear(),
         "sort" => {
-            // ordered, stable permutation of the entries (spec order on keys)
-            let kinds_ok = {
-                let ks: Vec<&V> = before.iter().map(|(k, _)| k).filter(|k| !matches!(k, V::Null)).collect();
-                ks.iter().all(|k| is_num_key(k)) || ks.iter().all(|k| matches!(k, V::S(_)))
-            };
-            // keys of mixed kinds: ValueKey::partial_cmp calls unrelated keys Equal (finding F-C14-5)
-            let f5 = if kinds_ok { None } else { Some("F-C14-5") };
+            // ordered, stable permutation of the entries under the total order of keys
+            // (null < bool < number < string < range < tuple, within a kind by value)
             let mut idx: Vec<usize> = (0..before.len()).collect();
-            idx.sort_by(|a, b| {
-                if spec_key_lt(&before[*a].0, &before[*b].0) {
-                    std::cmp::Ordering::Less
-                } else if spec_key_lt(&before[*b].0, &before[*a].0) {
-                    std::cmp::Ordering::Greater
-                } else {
-                    std::cmp::Ordering::Equal
-                }
-            });
-            if kinds_ok {
-                expected = idx.iter().map(|i| before[*i].0.canon()).collect();
-            } else {
-                // only "a permutation" is required to hold here …
-                let (mut b, mut a) = (keys_text(before), keys_text(after));
-                b.sort();
-                a.sort();
-                expected = if a == b { keys_text(after) } else { keys_text(before) };
-            }
-            // … and "ordered": no key before a strictly smaller one
+            idx.sort_by(|a, b| spec_key_cmp(&before[*a].0, &before[*b].0));
+            expected = idx.iter().map(|i| before[*i].0.canon()).collect();
             'outer: for i in 0..after.len() {
                 for j in i + 1..after.len() {
-                    if spec_key_lt(&after[j].0, &after[i].0) {
-                        fail("sort_sorted_perm_stable", format!("map.sort left {} before {}", after[i].0.canon(), after[j].0.canon()), f5);
+                    if spec_key_cmp(&after[j].0, &after[i].0) == std::cmp::Ordering::Less {
+                        fail("sort_sorted_perm_stable", format!("map.sort left {} before {}", after[i].0.canon(), after[j].0.canon()), None);
                         break 'outer;
                     }
                 }
